@@ -152,6 +152,22 @@ def c18(tier):
     return core.finish("C18", tier, "exploration", cov, viols, inc, t0, ASSUME_SAN, min_evals=1000)
 
 
+def c10(tier):
+    t0 = time.time()
+    cfgs = vec.ALIAS_QUICK + (vec.ALIAS_THOROUGH if tier == "thorough" else [])
+    cov, viols, inc = sets.run_engine("C10", tier, cfgs, 36, 36, extra_args=["--wide"] if tier == "thorough" else [], crash_owners=("C10",))
+    # the same aliased calls embedded in the random histories of the C01 engine
+    c2, v2, i2 = vec.run("C10", tier, hist_quick=120, hist_thorough=1200)
+    cov = sets.merge_cov(cov, c2)
+    cov["rule"] = ("complete small-scope grid: size 1..%d x position 0..size x source index x count 0..3 x spare capacity {natural/inline, heap full (must grow), "
+                   "exactly enough, more than enough} x 9 aliased call forms, per (flavour, N, element category, allocator) configuration, each judged against a "
+                   "std::vector model fed with a copy of the element taken before the call; plus the aliased calls embedded in random histories. "
+                   "distinct cell = (configuration, form, state class, source vs position, grows/fits)" % (12 if tier == "thorough" else 6))
+    cov["exhaustive"] = not viols and not inc
+    cov["exhaustive_scope"] = "the grid only; the embedded random histories are a sample"
+    return core.finish("C10", tier, "exploration", cov, viols + v2, inc + i2, t0, ASSUME_SAN, min_evals=1000)
+
+
 def setup():
     specs = [c.spec() for c in vec.QUICK]
     core.build_many(specs)
@@ -159,4 +175,4 @@ def setup():
     return 0
 
 
-CHECKS = {"C01": c01, "C02": c02, "C05": c05, "C06": c06, "C07": c07, "C03": c03, "C04": c04, "C11": c11, "C12": c12, "C19": c19, "C18": c18}
+CHECKS = {"C01": c01, "C02": c02, "C05": c05, "C06": c06, "C07": c07, "C03": c03, "C04": c04, "C11": c11, "C12": c12, "C19": c19, "C18": c18, "C10": c10}
